@@ -512,7 +512,7 @@ theorem loc_anchorKids {n : Node} {c : Ctx} (hl : Loc d n c) (hw : n.WF) (an : S
 theorem allLoc_anchorStep {n : Node} {c : Ctx} (hl : Loc d n c) (hw : n.WF) (a : Str) : AllLoc d (anchorStep a n c) :=
   allLoc_ofList (fun x hx => loc_anchorKids hl hw a x (List.mem_filter.mp hx).1)
 
-variable {mt : Matcher} {dsc : Desc}
+variable {mt : Matcher} {dsc : Desc} {rt : Node}
 
 theorem mem_yieldIf {inv : Bool} {r : Except Err Bool} {x y : NC} (h : y ∈ (yieldIf inv r x).1) : y = x := by
   unfold yieldIf at h
@@ -647,8 +647,9 @@ theorem allLoc_walk {f : Node → Ctx → Gen NC} {n : Node} {c : Ctx} (hl : Loc
   exact hf x.1 x.2 (loc_preorder n c hl hw x hx) y hy'
 
 /-- Every result of a segment applied at a located node is located. -/
-theorem allResLoc_stepSeg {n : Node} {c : Ctx} (hl : Loc d n c) (hw : n.WF) (s : ESeg) (rest : List ESeg) (tl : Bool) :
-    AllResLoc d (stepSeg mt dsc s rest tl n c) := by
+theorem allResLoc_stepSeg {n : Node} {c : Ctx} (hl : Loc d n c) (hw : n.WF) (s : ESeg) (hs : s.isKeyword = false)
+    (rest : List ESeg) (tl : Bool) :
+    AllResLoc d (stepSeg mt dsc rt s rest tl n c) := by
   cases s with
   | key k => simp only [stepSeg]; exact allResLoc_real (allLoc_keyStep k tl n c hl)
   | index i => simp only [stepSeg]; exact allResLoc_real (allLoc_indexStep hl i)
@@ -676,7 +677,7 @@ theorem allResLoc_stepSeg {n : Node} {c : Ctx} (hl : Loc d n c) (hw : n.WF) (s :
       refine allResLoc_real (allLoc_walk hl hw (fun m cm h y hy => ?_))
       rw [mem_ifAny_fst hy]
       exact h
-  | keyword inv k p => intro r hr; simp [stepSeg, fail] at hr
+  | keyword inv k p => simp [ESeg.isKeyword] at hs
   | collector e op => intro r hr; simp [stepSeg, fail] at hr
   | unknown => intro r hr; simp [stepSeg, fail] at hr
 
@@ -693,18 +694,18 @@ theorem allResLoc_stepVirt {items : List NC} (hl : ∀ x ∈ items, Loc d x.1 x.
 
 /-- Every result of `_get_required_nodes` started at a located result of a well-formed document is
 located. -/
-theorem allResLoc_required (hd : d.WF) : ∀ (segs : List ESeg) (r : Res), ResLoc d r →
-    AllResLoc d (required mt dsc segs r) := by
+theorem allResLoc_required (hd : d.WF) : ∀ (segs : List ESeg), (∀ s ∈ segs, s.isKeyword = false) →
+    ∀ (r : Res), ResLoc d r → AllResLoc d (required mt dsc rt segs r) := by
   intro segs
   induction segs with
-  | nil => intro r hr y hy; simp [required, one] at hy; subst hy; exact hr
+  | nil => intro _ r hr y hy; simp [required, one] at hy; subst hy; exact hr
   | cons s rest ih =>
-    intro r hr y hy
+    intro hk r hr y hy
     simp only [required] at hy
     obtain ⟨x, hx, hy'⟩ := mem_bind_fst hy
-    refine ih x ?_ y hy'
+    refine ih (fun s' hs' => hk s' (by simp [hs'])) x ?_ y hy'
     cases r with
-    | real nc => exact allResLoc_stepSeg hr (Loc.wf hr hd) s rest true x hx
+    | real nc => exact allResLoc_stepSeg hr (Loc.wf hr hd) s (hk s (by simp)) rest true x hx
     | virt items => exact allResLoc_stepVirt hr s x hx
 
 end Eval
